@@ -124,7 +124,7 @@ abbrev storyQ (k : Kind) (base : Xml) : Xml → Bool :=
   fun c => !isTouched "story" (touchedIds k "story" (namedOf k base)) (namedOf k base).carried c
 
 theorem storyLevel_filter (k : Kind) (rc base : Xml) (mid : Option PyExc)
-    (hk : k.isStoryLevel = true) (hw : WfKids "story" rc.kids = true)
+    (hk : k.isStoryLevel = true)
     (hs : k = .StorySend → ∀ story, convertStorySend base = .ok story →
       elemId (some story) "storyID" = Xml.childText (some base) "storyID") :
     (mergeRc k rc base mid).kids.filter (storyQ k base) = rc.kids.filter (storyQ k base) := by
@@ -134,7 +134,7 @@ theorem storyLevel_filter (k : Kind) (rc base : Xml) (mid : Option PyExc)
     split
     · rfl
     · rename_i story hst
-      rw [findChildId_ok _ _ _ hw]
+      rw [findChildId_ok _ _ _]
       cases hl : locate "story" rc.kids (elemId (some story) "storyID") with
       | none => cases mid <;> rfl
       | some i =>
@@ -157,11 +157,11 @@ theorem storyLevel_filter (k : Kind) (rc base : Xml) (mid : Option PyExc)
     exact qfalse_findall base (fun x hx => hx)
   case StoryDelete =>
     simp only [mergeRc]
-    apply deleteLoop_filter _ _ _ _ _ _ _ hw
+    apply deleteLoop_filter _ _ _ _ _ _ _
     exact qfalse_ids _ (fun x hx => hx)
   case EAStoryDelete =>
     simp only [mergeRc]
-    apply deleteLoop_filter _ _ _ _ _ _ _ hw
+    apply deleteLoop_filter _ _ _ _ _ _ _
     exact qfalse_ids _ (fun x hx => hx)
   case StoryInsert =>
     simp only [mergeRc]
@@ -181,7 +181,7 @@ theorem storyLevel_filter (k : Kind) (rc base : Xml) (mid : Option PyExc)
         exact qfalse_elemsOf _ (fun x hx => hx)
   case StoryReplace =>
     simp only [mergeRc]
-    rw [findRequired_ok _ _ _ _ hw]
+    rw [findRequired_ok _ _ _ _]
     cases hl : locate "story" rc.kids (elemId (some base) "storyID") with
     | none => rfl
     | some i =>
@@ -195,7 +195,7 @@ theorem storyLevel_filter (k : Kind) (rc base : Xml) (mid : Option PyExc)
           intro x hx; exact hx
   case EAStoryReplace =>
     simp only [mergeRc]
-    rw [findRequired_ok _ _ _ _ hw]
+    rw [findRequired_ok _ _ _ _]
     cases hl : locate "story" rc.kids (elemId (base.find "element_target") "storyID") with
     | none => rfl
     | some i =>
@@ -207,11 +207,11 @@ theorem storyLevel_filter (k : Kind) (rc base : Xml) (mid : Option PyExc)
         intro x hx; exact hx
   case EAStorySwap =>
     simp only [mergeRc, textsOf_opt]
-    apply swapTwo_filter _ _ _ _ _ hw
+    apply swapTwo_filter _ _ _ _ _
     exact qfalse_ids _ (fun x hx => hx)
   case EAStoryMove =>
     simp only [mergeRc]
-    apply moveMany_filter _ _ _ _ _ _ hw
+    apply moveMany_filter _ _ _ _ _ _
     exact qfalse_ids _ (fun x hx => hx)
   case StoryMove =>
     simp only [mergeRc]
@@ -221,7 +221,7 @@ theorem storyLevel_filter (k : Kind) (rc base : Xml) (mid : Option PyExc)
       split
       · rfl
       · rename_i target _
-        rw [findRequired_ok _ _ _ _ hw]
+        rw [findRequired_ok _ _ _ _]
         cases hl : locate "story" rc.kids sid with
         | none => rfl
         | some s =>
